@@ -215,6 +215,11 @@ def cdraw_items(rng, quick):
         ("exponential", "DistExp(1/(x + 1))", [[(F(1), V("x")), (F(1), ())]]),
         ("exponential", "DistExp(2/(x + y + 1))", [[(F(1, 2), V("x")), (F(1, 2), V("y")), (F(1, 2), ())]]),
         ("exponential", "DistExp(3/(y + 1))", [[(F(1, 3), V("y")), (F(1, 3), ())]]),
+        # lower bounds / locations that print as several terms (the rewriting splices them into a text)
+        ("uniform", "Uniform(x + 1, x + 3)", [[(F(1), V("x")), (F(1), ())], [(F(1), V("x")), (F(3), ())]]),
+        ("uniform", "Uniform(x - y - 1, x + y + 1)", [[(F(1), V("x")), (F(-1), V("y")), (F(-1), ())], [(F(1), V("x")), (F(1), V("y")), (F(1), ())]]),
+        ("uniform", "Uniform(2*x - 1, 2*x + y)", [[(F(2), V("x")), (F(-1), ())], [(F(2), V("x")), (F(1), V("y"))]]),
+        ("laplace", "Laplace(x - y - 1, y + x + 1)", [[(F(1), V("x")), (F(-1), V("y")), (F(-1), ())], [(F(1), V("y")), (F(1), V("x")), (F(1), ())]]),
     ]
     prefixes = [
         ("x = 0\ny = 1\n", "    x = Bernoulli(1/2)\n    y = DiscreteUniform(0, 2)\n",
@@ -239,7 +244,8 @@ def cdraw_items(rng, quick):
                           "goalmap": goalmap, "goals": list(goalmap), "points": [{}], "origin": f"cdraw {text}",
                           "meta": meta})
             i += 1
-    sel = items if not quick else [it for i, it in enumerate(items) if i % 2 == 0 or i % 4 == 1 or "Laplace(x, y + 1)" in it["text"]]
+    sel = items if not quick else [it for i, it in enumerate(items) if i % 2 == 0 or i % 4 == 1 or "Laplace(x, y + 1)" in it["text"]
+                                   or "Uniform(x + 1" in it["text"] or "Uniform(2*x - 1" in it["text"]]
     # the same draws inside a branch: z = 5 first, redrawn only if x == 1 (x in {0, 1}); the location/scale rewriting must
     # keep the branch condition
     guarded = []
